@@ -177,6 +177,10 @@ def _run_one(case: dict) -> dict:
         }
 
 
+def _run_chunk(chunk: list) -> list:
+    return [_run_one(c) for c in chunk]
+
+
 def _safe_name(key: str) -> str:
     s = re.sub(r"[^A-Za-z0-9_.=,+-]", "_", key)
     if len(s) > 150:
@@ -203,8 +207,22 @@ def run_check(prop: str, tier: str, seed: int, jobs: int, quiet: bool = True) ->
     capped = False
     chunk = max(1, min(16, len(cases) // (jobs * 8) or 1))
     with ctx.Pool(jobs, initializer=_init_worker, initargs=(modname, seed, quiet)) as pool:
-        it = pool.imap_unordered(_run_one, cases, chunksize=chunk)
-        for r in it:
+        chunks = [cases[i : i + chunk] for i in range(0, len(cases), chunk)]
+        it = pool.imap_unordered(_run_chunk, chunks, chunksize=1)  # chunksize=1 keeps the iterator's next(timeout)
+        stall_s = float(os.environ.get("VERIF_STALL_TIMEOUT", "900"))
+        pending: list = []
+        while True:
+            try:
+                if not pending:
+                    pending = list(it.next(timeout=stall_s))
+                r = pending.pop()
+            except StopIteration:
+                break
+            except mp.TimeoutError:
+                # a worker died (e.g. killed for memory) or a case never returns: never hang, never claim anything
+                pool.terminate()
+                print(f"INTERNAL-ERROR property={prop} no result for {stall_s:.0f}s after {len(results)} of {len(cases)} cases (worker died or case stuck)")
+                return 2
             results.append(r)
             if time.time() - t_start > budget_s:
                 capped = True
@@ -226,7 +244,12 @@ def run_check(prop: str, tier: str, seed: int, jobs: int, quiet: bool = True) ->
     sample_cases = sample_cases[::stride][:24]
     if sample_cases and not os.environ.get("VERIF_NO_DETERMINISM_TEST"):
         with ctx.Pool(1, initializer=_init_worker, initargs=(modname, seed, quiet)) as pool:
-            again = pool.map(_run_one, sample_cases)
+            try:
+                again = pool.map_async(_run_one, sample_cases).get(timeout=float(os.environ.get("VERIF_STALL_TIMEOUT", "900")))
+            except mp.TimeoutError:
+                pool.terminate()
+                print(f"INTERNAL-ERROR property={prop} determinism self-test did not finish (worker died or case stuck)")
+                return 2
         for r2 in again:
             r1 = done[r2["key"]]
             if r1.get("digest") != r2.get("digest") or r1.get("obs") != r2.get("obs") or [
